@@ -413,11 +413,23 @@ func (e *Environment) SetNoChecks(name string, val Object, create bool) Object {
 	}
 	r, ok := e.store[name] // is this an update? possibly of an existing ref.
 	if ok {
+		if rr, isRef := r.(Reference); isRef {
+			if _, alive := rr.RefEnv.store[rr.Name]; !alive {
+				// The variable the reference points to was deleted meanwhile: this is a new name again.
+				delete(e.store, name)
+				ok = false
+			}
+		}
+	}
+	if ok {
 		return e.update(name, r, val)
 	}
 	// New name... let's see if it's really new or making it a ref.
 	if ref, ok := e.makeRef(name); ok {
 		log.Debugf("SetNoChecks(%s) created ref %s in %d", name, ref.Name, ref.RefEnv.depth)
+		if old, exists := ref.RefEnv.store[ref.Name]; exists {
+			ref.RefEnv.noteReplaced(ref.Name, old)
+		}
 		ref.RefEnv.store[ref.Name] = Value(val) // kinda neat to make aliases but it can create loops, so not for now.
 		return val
 	}
